@@ -362,4 +362,40 @@ def QDecoder.bits (W : Nat) (d : QDecoder) : List Bool :=
 def QDecoder.Inv (W : Nat) (d : QDecoder) : Prop :=
   d.mask = 0 ∨ ∃ j, j < W ∧ d.mask = 2^j
 
+/-! ## Bounded sinks (`SymbolCoder<Word, S, B>` with a `B` that can refuse a write)
+
+`write_bit` flushes the full current word with `self.backend.write(self.current_word)?` *before*
+it assigns `current_word` / `mask_last_written`; a refused write therefore returns the error with
+the coder untouched.  `cap` = number of words the sink accepts in total. -/
+
+/-- `WriteBitStream::write_bit` over a sink of capacity `cap`: `(coder, accepted)` -/
+def writeBitB (W cap : Nat) (c : Coder) (bit : Bool) : Coder × Bool :=
+  let writeMask := (c.mask <<< 1) % 2^W
+  if writeMask ≠ 0 then (writeBit W c bit, true)
+  else if c.mask ≠ 0 ∧ cap ≤ c.backend.length then (c, false)
+  else (writeBit W c bit, true)
+
+/-- bits one by one until the first refusal: the coder, the accepted bits, and whether all were accepted -/
+def writeBitsB (W cap : Nat) (c : Coder) : List Bool → Coder × List Bool × Bool
+  | [] => (c, [], true)
+  | b :: bs =>
+    match writeBitB W cap c b with
+    | (_, false) => (c, [], false)
+    | (c', true) =>
+      let (c'', acc, ok) := writeBitsB W cap c' bs
+      (c'', b :: acc, ok)
+
+/-- `StackCoder::into_compressed` over a bounded sink (top first); `none` = `Err(WriteError)` -/
+def Stack.intoCompressedB (W cap : Nat) (c : Coder) : Option (List Nat) :=
+  match writeBitB W cap c true with
+  | (_, false) => none
+  | (c, true) =>
+    if c.mask ≠ 0 then (if cap ≤ c.backend.length then none else some (c.cw :: c.backend))
+    else some c.backend
+
+/-- `QueueEncoder::into_compressed` over a bounded sink (top first) -/
+def Queue.intoCompressedB (cap : Nat) (c : Coder) : Option (List Nat) :=
+  if c.mask ≠ 0 then (if cap ≤ c.backend.length then none else some (c.cw :: c.backend))
+  else some c.backend
+
 end CV.Bits
